@@ -6,6 +6,7 @@ import (
 	"go/constant"
 	"go/token"
 	"go/types"
+	"golang.org/x/tools/go/packages"
 	"sort"
 	"strings"
 
@@ -809,11 +810,81 @@ func rulePermissions(c *Ctx) {
 // wild-nonnil: for WildStrings/WildPermissionDescs "Value == nil" MEANS wildcard, so an explicit (possibly empty)
 // list must never be stored as a possibly-nil slice
 
+// wildPresenceChecked: the other way into the nil that means wildcard is not to be given anything. encoding/json leaves
+// a struct field alone when its key is missing or null, so a JSON decoder that copies a WildStrings out of an
+// auxiliary struct yields "all methods" for a permission that names no method at all - the reference refuses such a
+// manifest (finding 102). A JSON decoder of package manifest that assigns a field of type WildStrings contains a
+// rejecting test of the raw presence of the value (a json.RawMessage, or a pointer compared with nil).
+func wildPresenceChecked(c *Ctx, pk *packages.Package) {
+	info := pk.TypesInfo
+	n := 0
+	for _, fd := range c.P.AllFuncDecls() {
+		if fd.Pkg != pk || fd.Decl.Body == nil || fd.Decl.Name.Name != "UnmarshalJSON" || fd.Decl.Recv == nil {
+			continue
+		}
+		assigns := false
+		ast.Inspect(fd.Decl.Body, func(x ast.Node) bool {
+			as, ok := x.(*ast.AssignStmt)
+			if !ok {
+				return true
+			}
+			for _, l := range as.Lhs {
+				if se, ok := ast.Unparen(l).(*ast.SelectorExpr); ok && namedTypeIs(info.TypeOf(se), "pkg/smartcontract/manifest", "WildStrings") {
+					assigns = true
+				}
+			}
+			return true
+		})
+		if !assigns {
+			continue
+		}
+		n++
+		checked := false
+		ast.Inspect(fd.Decl.Body, func(x ast.Node) bool {
+			is, ok := x.(*ast.IfStmt)
+			if !ok || len(is.Body.List) == 0 {
+				return true
+			}
+			if _, ret := is.Body.List[len(is.Body.List)-1].(*ast.ReturnStmt); !ret {
+				return true
+			}
+			ast.Inspect(is.Cond, func(y ast.Node) bool {
+				e, ok := y.(ast.Expr)
+				if !ok {
+					return true
+				}
+				t := info.TypeOf(e)
+				if t == nil {
+					return true
+				}
+				if types.TypeString(t, nil) == "encoding/json.RawMessage" {
+					checked = true
+				}
+				if pt, ok := t.(*types.Pointer); ok && namedTypeIs(pt.Elem(), "pkg/smartcontract/manifest", "WildStrings") {
+					checked = true
+				}
+				return true
+			})
+			return true
+		})
+		key := "presence." + shortSym(FuncKey(fd.Obj))
+		if checked {
+			c.OK(key, c.P.Pos(fd.Decl.Pos()), "a missing or null list is refused, only \"*\" is the wildcard")
+		} else {
+			c.Fail(key, c.P.Pos(fd.Decl.Pos()), fmt.Sprintf("%s copies a WildStrings out of what encoding/json filled in and never looks whether the key was there: a missing or null `methods` leaves the nil that means wildcard, so a permission that names a contract and no method allows every method of it (the manifest deploys, and the contract calls GAS.transfer) - the reference refuses such a manifest", FuncKey(fd.Obj)))
+		}
+	}
+	c.Floor("JSON decoders that fill a WildStrings", n, 1)
+}
+
 func ruleWildNonNil(c *Ctx) {
 	pk := c.P.Pkg("pkg/smartcontract/manifest")
 	if pk == nil {
 		c.Lost("anchor", "package manifest not found")
 		return
+	}
+	if c.Property == "C16" {
+		wildPresenceChecked(c, pk)
 	}
 	isWild := func(t types.Type) bool {
 		return namedTypeIs(t, "pkg/smartcontract/manifest", "WildStrings") || namedTypeIs(t, "pkg/smartcontract/manifest", "WildPermissionDescs")
